@@ -79,6 +79,9 @@ pub fn model_expect(db: &Db, q: &Query, dev: &Dev) -> ModelSays {
     let fired: Vec<&'static str> = ev.dev_fired.iter().copied().collect();
     let types: Vec<String> = q.out.iter().map(|o| o.1.engine().to_string()).collect();
     let sorted_by = items_to_keys(&q.order_by);
+    if ev.dialect_ambiguous {
+        return ModelSays::Ambiguous;
+    }
     if ev.ambiguous {
         // If the only source of ambiguity can be the top-level slice, the weak
         // check applies; we cannot tell it apart from inner ambiguity, so only
@@ -103,6 +106,29 @@ fn has_inner_limit(q: &Query) -> bool {
         }
     });
     n > 0
+}
+
+/// Expectation that is violated only if the engine agrees neither with the
+/// strict model nor with the model under the recorded deviations.
+pub fn model_expect_both(db: &Db, q: &Query, allowed: &Dev) -> ModelSays {
+    let strict = model_expect(db, q, &Dev::default());
+    if *allowed == Dev::default() {
+        return strict;
+    }
+    match strict {
+        ModelSays::Expect(e, f) => match model_expect(db, q, allowed) {
+            ModelSays::Expect(e2, _) => {
+                if e2 == e {
+                    ModelSays::Expect(e, f)
+                } else {
+                    ModelSays::Expect(Expect::AllOf(vec![e, e2]), f)
+                }
+            }
+            // under the deviations the model cannot tell: do not shrink into it
+            _ => ModelSays::Ambiguous,
+        },
+        other => other,
+    }
 }
 
 /// Auxiliary data kept with a violation so that it can be shrunk at AST level.
@@ -278,17 +304,29 @@ pub fn judge_against_model(
                 Some((class, detail)) => {
                     // explained by recorded deviations?
                     if *allowed_dev != Dev::default() {
-                        if let ModelSays::Expect(e2, fired) = model_expect(db, q, allowed_dev) {
-                            if !fired.is_empty() && eval_expect(&e2, rep, 0, stmt).is_none() {
-                                for f in fired {
-                                    stats.count(&format!("known_dev.{f}"));
+                        match model_expect(db, q, allowed_dev) {
+                            ModelSays::Expect(e2, fired) => {
+                                if !fired.is_empty() && eval_expect(&e2, rep, 0, stmt).is_none() {
+                                    for f in fired {
+                                        stats.count(&format!("known_dev.{f}"));
+                                    }
+                                    return None;
                                 }
+                            }
+                            _ => {
+                                // with the recorded deviations on, the model can
+                                // no longer tell (dialect-ambiguous / may error)
+                                stats.count("verdict.ambiguous_under_deviations");
                                 return None;
                             }
                         }
                     }
                     stats.count("verdict.violation");
-                    Some(mk(class, detail, e))
+                    let e_final = match model_expect_both(db, q, allowed_dev) {
+                        ModelSays::Expect(e2, _) => e2,
+                        _ => e,
+                    };
+                    Some(mk(class, detail, e_final))
                 }
             }
         }
